@@ -14,7 +14,7 @@ pub open spec fn d_acc(d: CompiledDfa, cls: ClsF, w: Seq<char>, tid: TerminalID)
 }
 /// shape minimize relies on: as many end-state entries as states, at least one state, targets are states
 pub open spec fn d_wf(d: CompiledDfa) -> bool {
-    &&& d.states@.len() >= 1 && d.states@.len() == d.end_states@.len() && d.states@.len() <= u32::MAX
+    &&& d.states@.len() >= 1 && d.states@.len() == d.end_states@.len() && d.states@.len() < u32::MAX
     &&& forall|s: int, k: int| 0 <= s < d.states@.len() && 0 <= k < d.states@[s].transitions@.len() ==> (#[trigger] d.states@[s].transitions@[k]).1.0 < d.states@.len()
 }
 
@@ -28,6 +28,7 @@ pub open spec fn part_ok(p: PartV, n: int) -> bool {
     &&& forall|g: int, x: StateID| 0 <= g < p.len() && #[trigger] p[g].contains(x) ==> x.0 < n
 }
 pub open spec fn has_grp(p: PartV, s: int) -> bool { exists|g: int| #[trigger] in_grp(p, g, s) }
+pub open spec fn grp_nonempty(p: PartV, g: int) -> bool { exists|s: int| #[trigger] in_grp(p, g, s) }
 pub open spec fn grp(p: PartV, s: int) -> int { choose|g: int| in_grp(p, g, s) }
 /// all members of a group agree on accepting and on the token type they accept
 pub open spec fn acc_homog(d: CompiledDfa, p: PartV) -> bool {
